@@ -276,6 +276,9 @@ pub fn gap_strategy(limit: u64) -> BoxedStrategy<u64> {
         2 => 17u64..=22,
         2 => 586u64..=593,
         2 => len_strategy(limit as usize).prop_map(|x| x as u64),
+        // truncating-cast boundaries (gap as u8 / u16)
+        1 => (250u64..=280).prop_map(move |g| g.min(limit)),
+        1 => prop_oneof![505u64..=535, 761u64..=790, 1020u64..=1050].prop_map(move |g| g.min(limit)),
     ]
     .boxed()
 }
